@@ -1,4 +1,5 @@
 import B6.Lemmas.SearchCompile
+import B6.Lemmas.SearchPosting
 /-!
 # C06 — Search iterators implement sorted-set algebra under any call sequence
 
@@ -84,21 +85,21 @@ theorem union_refines {σ : Type} (o : IterOps σ) (children : List (σ × List 
 theorem intersection_refines {σ : Type} (o : IterOps σ) (fuel : Nat) (children : List (σ × List Nat))
     (ys : List Nat) (hne : children ≠ [])
     (hch : ∀ p ∈ children, Refines o p.1 p.2 ∧ p.2.length < fuel) (hys : StrictSorted ys)
-    (hmem : ∀ x, x ∈ ys ↔ ∀ p ∈ children, x ∈ p.2) :
+    (hmem : ∀ x, x ∈ ys ↔ ∀ p ∈ children, x ∈ p.2) (hdom : ∀ p ∈ children, ∀ x ∈ p.2, o.dom x) :
     Refines (Inter.ops o fuel) (Inter.new o (children.map (·.1))) ys :=
-  inter_refines o fuel o.estimate children ys hne hch hys hmem
+  inter_refines o fuel o.estimate children ys hne hch hys hmem hdom
 
 /-- The leapfrog loop terminates: in every state reachable by calls that returned `true` (`InterRel`),
 `Next` and `Advance k` finish within the fuel (they never answer `Err.fuel`), for every `k`. -/
 theorem intersection_terminates {σ : Type} (o : IterOps σ) (fuel : Nat) (its : List σ) (C : Cursor)
     (h : InterRel o fuel its C) :
-    Inter.next o fuel its ≠ .error .fuel ∧ ∀ k, Inter.advance o fuel k its ≠ .error .fuel :=
+    Inter.next o fuel its ≠ .error .fuel ∧ ∀ k, o.dom k → Inter.advance o fuel k its ≠ .error .fuel :=
   inter_terminates o fuel its C h
 
 /-- `keyRange`: lazy `Advance(begin)`, end clamp. -/
 theorem keyRange_refines {σ : Type} (o : IterOps σ) (it : σ) (xs : List Nat) (b e : Nat)
-    (h : Refines o it xs) : Refines (Range.ops o) ⟨it, b, e, false⟩ (rangeList b e xs) :=
-  range_refines o b e h
+    (h : Refines o it xs) (hb : o.dom b) : Refines (Range.ops o) ⟨it, b, e, false⟩ (rangeList b e xs) :=
+  range_refines o b e h hb
 
 /-! ## Compiled query trees -/
 
@@ -122,7 +123,7 @@ theorem tokenPrefix_refines (F : Nat) (ix : Index) (hv : ix.Valid) (hF : ix.tota
 theorem compile_transcript (F : Nat) (ix : Index) (hv : ix.Valid) (hF : ix.total < F) (q : SQuery) (hq : q.WF)
     (calls : List Call) :
     runImpl (ops F (depth q)) (compile F ix q) calls = some (runSpec (start (q.denote ix)) calls) :=
-  (compile_refines F ix hv hF q hq (depth q) (Nat.le_refl _)).run calls
+  (compile_refines F ix hv hF q hq (depth q) (Nat.le_refl _)).run calls (fun k _ => ops_dom F (depth q) k)
 
 /-- A plain `Next` loop on a compiled query yields exactly the denoted list, in increasing order. -/
 theorem compile_drain (F : Nat) (ix : Index) (hv : ix.Valid) (hF : ix.total < F) (q : SQuery) (hq : q.WF) :
@@ -132,6 +133,44 @@ theorem compile_drain (F : Nat) (ix : Index) (hv : ix.Valid) (hF : ix.total < F)
   refine ⟨?_, (denote_spec ix hv q).1⟩
   rw [compile_transcript F ix hv hF q hq]
   exact congrArg some (spec_drain (start (q.denote ix)))
+
+/-! ## Compact indices: the posting-list iterator of C08 is a leaf of the same algebra
+
+`postingOps tbl` is C08's byte-level model of `compact.Iterator`; its key domain `dom k` is "the namespace of `k` is in
+the file's namespace table" (`Advance` panics in `nt.Encode` otherwise).  All combinator theorems above are stated
+for an arbitrary `IterOps` with its `dom`, so they cover trees over compact posting lists; `compile_refines` itself
+is for the in-memory (array / tree) indices, whose closed iterator type the driver runs. -/
+
+open B6.Model.Posting in
+/-- the compact iterator over `PostingList.Fill(token, ids)` refines the spec cursor over the ids' keys -/
+theorem posting_refines (token : B6.Model.Varint.Bytes) (ids : List Id) (tbl : Table) (ht : TableOK tbl)
+    (hok : PostingOK tbl ids) :
+    Refines (postingOps tbl) (fill token ids, It.start) (ids.map keyNat) :=
+  B6.Lemmas.Search.posting_refines token ids tbl ht hok
+
+open B6.Model.Posting in
+/-- `union` / `tokenPrefix` over compact posting lists of one file -/
+theorem union_of_postings (tbl : Table) (ht : TableOK tbl) (ps : List (B6.Model.Varint.Bytes × List Id))
+    (hok : ∀ p ∈ ps, PostingOK tbl p.2) (ys : List Nat) (hys : StrictSorted ys)
+    (hmem : ∀ x, x ∈ ys ↔ ∃ p ∈ ps, x ∈ p.2.map keyNat) :
+    Refines (Union.ops (postingOps tbl)) (.fresh (ps.map fun p => (fill p.1 p.2, It.start))) ys :=
+  B6.Lemmas.Search.union_of_postings tbl ht ps hok ys hys hmem
+
+open B6.Model.Posting in
+/-- `intersection` over compact posting lists of one file: the leapfrog only ever passes the lists' own keys, which
+are inside the key domain -/
+theorem intersection_of_postings (tbl : Table) (ht : TableOK tbl) (fuel : Nat)
+    (ps : List (B6.Model.Varint.Bytes × List Id)) (hne : ps ≠ [])
+    (hok : ∀ p ∈ ps, PostingOK tbl p.2 ∧ p.2.length < fuel) (ys : List Nat) (hys : StrictSorted ys)
+    (hmem : ∀ x, x ∈ ys ↔ ∀ p ∈ ps, x ∈ p.2.map keyNat) :
+    Refines (Inter.ops (postingOps tbl) fuel)
+      (Inter.new (postingOps tbl) (ps.map fun p => (fill p.1 p.2, It.start))) ys :=
+  inter_of_postings tbl ht fuel ps hne hok ys hys hmem
+
+example : B6.Model.Posting.TableOK B6.Props.C08.wTbl ∧ PostingOK B6.Props.C08.wTbl B6.Props.C08.wIds := by
+  unfold B6.Model.Posting.TableOK PostingOK B6.Model.Posting.ValidIds B6.Model.Posting.SortedIds
+    B6.Model.Posting.TnOK B6.Props.C08.wTbl B6.Props.C08.wIds B6.Model.Posting.idLt
+  decide
 
 /-! ## Non-vacuity: the hypotheses hold of concrete, non-trivial values; and one worked transcript -/
 
